@@ -30,7 +30,30 @@ LEVEL = "other"
 ALPHAS = [(50, 0.05), (100, 0.1)]
 
 
+def simulate_paired(spec):
+    """every spectrum has a target PSM and a decoy PSM with COARSE scores (exact ties are frequent); in a null spectrum
+    the two are exchangeable.  Rows are shuffled so that file order carries no information."""
+    rng = np.random.default_rng(spec["seed"])
+    ns = spec["n"] // 2
+    rows = []
+    for sp in range(ns):
+        correct = bool(rng.random() >= spec["pi0"])
+        st = rng.normal(spec["sep"] if correct else 0.0, 1.0)
+        sd = rng.normal(0.0, 1.0)
+        for tgt, sc in ((True, st), (False, sd)):
+            rows.append({"spec": sp + 1, "tgt": tgt, "correct": bool(correct and tgt),
+                         "f": [int(round(2 * sc)), int(rng.integers(0, 5)), int(round(sc))]})
+    order = rng.permutation(len(rows))
+    rows = [rows[int(i)] for i in order]
+    for i, r in enumerate(rows):
+        r["id"] = i
+        r["pep"] = i
+    return rows
+
+
 def simulate(spec):
+    if spec.get("family") == "paired":
+        return simulate_paired(spec)
     rng = np.random.default_rng(spec["seed"])
     n = spec["n"]
     rows = []
@@ -60,9 +83,9 @@ def one_replicate(spec):
     wd = Path(tempfile.mkdtemp(prefix="c04_"))
     try:
         rows = simulate(spec)
-        case = {"files": [{"rows": rows}], "folds": spec["folds"], "workers": 1, "cap": None, "keyw": 2, "fmt": "pin",
+        case = {"files": [{"rows": rows}], "folds": spec["folds"], "workers": 1, "cap": spec.get("cap"), "keyw": 2, "fmt": "pin",
                 "thr": [1, 20], "train_thr": [1, 20], "seed": spec["seed"], "est": spec["est"], "col": 1, "override": True,
-                "max_iter": 3, "direction": "f1" if spec["est"] == "memo" else None, "leak": spec.get("leak", False)}
+                "max_iter": 3, "direction": "f1" if spec["est"] in ("memo", "feat") else None, "leak": spec.get("leak", False)}
         if spec.get("leak"):
             # negative-control instrument: make the training sets include the held-out fold (never on the checked path)
             import sys
@@ -157,6 +180,14 @@ def run(ctx):
             if s["pi0"] > 0.7:
                 s["sep"] = max(s["sep"], 2.5)      # otherwise nothing is accepted at 5 % and brew stops with an explicit error
             specs.append(s)
+    # capped training sets (memoriser) and paired target/decoy PSMs with coarse, tie-rich scores (feature scoring, tree)
+    extra = []
+    for r in range(reps):
+        extra.append({"seed": ctx.seed * 100000 + 500000 + r, "n": 1500, "pi0": 0.5, "sep": [2.0, 3.0][r % 2], "folds": 2 + r % 3,
+                      "est": "memo", "cap": 500 + 100 * (r % 3), "group": "memo+cap"})
+        extra.append({"seed": ctx.seed * 100000 + 600000 + r, "n": 1600, "pi0": 0.5, "sep": [2.5, 3.0][r % 2], "folds": 2 + r % 3,
+                      "est": ["feat", "tree"][r % 2], "family": "paired", "group": "paired-ties"})
+    specs += extra
     nleak = 6
     for r in range(nleak):     # instrument check: with leaky training sets the memoriser must break the bound
         specs.append({"seed": ctx.seed * 100000 + 900000 + r, "n": 1500, "pi0": 0.6, "sep": 2.0, "folds": 3, "est": "memo", "leak": True})
@@ -170,8 +201,8 @@ def run(ctx):
     # ---- FdrTrace groups: (learner, level, alpha) over replicates
     traces, meta = [], []
     failed_runs = sum(1 for s, r in zip(specs, res) if r["raised"])
-    for est in learners + ["memo+leak"]:
-        sel = [r for s, r in zip(specs, res) if (s["est"] + ("+leak" if s.get("leak") else "")) == est and not r["raised"]]
+    for est in learners + ["memo+cap", "paired-ties", "memo+leak"]:
+        sel = [r for s, r in zip(specs, res) if (s.get("group") or (s["est"] + ("+leak" if s.get("leak") else ""))) == est and not r["raised"]]
         if len(sel) < 2:
             continue
         for lvl in ("psms", "peptides"):
